@@ -7,7 +7,7 @@ import random
 from .. import core, coop, gen, impl_conc
 
 ID = "C14"
-BUDGET = {"quick": 150, "thorough": 12000}
+BUDGET = {"quick": 600, "thorough": 60000}
 RULE = ("scenario = one real threading Scheduler with 2-5 jobs (one-shots and unlimited cyclic jobs, tags), 2-4 controlled threads each "
         "performing 1-3 public operations (exec_jobs forced or not, scheduling, delete_job, delete_jobs by tags/all, get_jobs, jobs, "
         "str, repr), n_threads in {1,2,0}; every lock acquire/release, queue operation, thread start/join and callback boundary "
